@@ -139,7 +139,15 @@ Definition is_for_rx (s : psess) (from : addr) (p : plain_hdr) : bool :=
   let dest_matches :=
     mode_enc (ps_mode s) || (ps_local_node s =? 0) || is_none dstu ||
     opt_eqb dstu (Some (ps_local_node s)) in
-  nodeid_matches && dest_matches && (ps_local_sid s =? p_sess p) &&
+  (* a Group-mode session stands for one group: a groupcast message for another
+     group is not for it (a2da8bb); messages naming no group still match *)
+  let group_matches :=
+    match ps_mode s with
+    | MGroup _ gid =>
+        match plain_get_dst_groupcast p with Some g => g =? gid | None => true end
+    | _ => true
+    end in
+  nodeid_matches && dest_matches && group_matches && (ps_local_sid s =? p_sess p) &&
   addr_eqb (canonical (ps_addr s)) (canonical from) &&
   Bool.eqb (mode_enc (ps_mode s)) (plain_encrypted p) && negb (ps_reserved s).
 
@@ -280,6 +288,27 @@ Definition route (st : pstate) (i : nat) (s : psess) (p : plain_hdr) (x : proto_
   let '(s', r) := sess_post_recv s p x in
   (set_sessions st (set_nth (st_sessions st) i s'), mkOut (Routed i r) p x payload).
 
+(** [decode_packet], existing-session path after [decode_remaining] succeeded
+    (repair 6198879): an authenticated group DATA message that reached its
+    sender's (ephemeral) Group-mode session first goes through the sender's entry
+    in the group counter store - [Duplicate] if it refuses - and only then
+    through [Session::post_recv]. *)
+Definition group_sender (s : psess) (p : plain_hdr) : option (N * N) :=
+  match ps_mode s, ps_peer_node s with
+  | MGroup fab _, Some src => if plain_control p then None else Some (fab, src)
+  | _, _ => None
+  end.
+
+Definition route_existing (st : pstate) (i : nat) (s : psess) (p : plain_hdr) (x : proto_hdr)
+    (payload : list N) : pstate * outcome :=
+  match group_sender s p with
+  | Some (fab, src) =>
+      let '(gs, fresh) := g_post_recv (st_gstore st) fab src (p_ctr p) in
+      let st1 := mkSt (st_sessions st) (st_groups st) gs (st_next_id st) in
+      if fresh then route st1 i s p x payload else (st1, mkOut RejGroupDup p x payload)
+  | None => route st i s p x payload
+  end.
+
 (** the candidate keys tried for a group packet *)
 Definition group_cands (st : pstate) (p : plain_hdr) : list gcand :=
   filter (fun c =>
@@ -360,7 +389,7 @@ Definition decode_packet (W : world) (o : oracle) (st : pstate) (from : addr) (w
           match decode_remaining W (sess_dec_key s) (node_or0 (ps_peer_node s))
                                  (addr_reliable (ps_addr s)) p aad rest with
           | inl v => (st, rej v p)
-          | inr (x, payload) => route st i s p x payload
+          | inr (x, payload) => route_existing st i s p x payload
           end
       | None =>
           if negb (plain_encrypted p) then
